@@ -171,7 +171,9 @@ CHECKS = {
               "freshly defined family shows the specification, repeating a dump never changes it, operations on disjoint families "
               "in between do not matter (induction over arbitrary operation lists); the machine reproduces the recorded leak. Tie: "
               "fingerprint correspondence on forked histories; oracle: every position of a history re-run alone in a pristine "
-              "forked child"),
+              "forked child - including histories in which the functions of a class are built more than once (a first use that "
+              "fails during the set-up because a nested class is not a dataclass yet / not defined yet, repeated after the cause "
+              "is removed; one class with CatchAll / aliases / paths reached through two main classes; both engines)"),
         technique='Lean 4 proof over hand state machines + forked-history correspondence + replay oracle', ref='4 C06'),
     'C07': dict(
         text=("Lean theorems: frame lemma and non-interference (C07_disjoint: any operations on other families leave a disjoint family's "
